@@ -274,13 +274,14 @@ class Repo:
 
 def walk_own(fnode):
     """ast.walk over a function body without descending into nested function/class definitions."""
-    stack = list(ast.iter_child_nodes(fnode))
+    # pre-order, in source order (rules that speak of "the last assignment" rely on it)
+    stack = list(reversed(list(ast.iter_child_nodes(fnode))))
     while stack:
         n = stack.pop()
         yield n
         if isinstance(n, (ast.FunctionDef, ast.AsyncFunctionDef, ast.ClassDef)):
             continue
-        stack.extend(ast.iter_child_nodes(n))
+        stack.extend(reversed(list(ast.iter_child_nodes(n))))
 
 
 def walk_stmts(body):
@@ -422,7 +423,7 @@ def finish(ctx: Ctx, t0, meta, seed=0):
             else:
                 new_viol.append(inst)
 
-    ev_dir = os.path.join(VERIF, "evidence")
+    ev_dir = os.environ.get("GV_EVIDENCE_DIR") or os.path.join(VERIF, "evidence")  # the override is used by the self-tests only
     os.makedirs(ev_dir, exist_ok=True)
     replay_paths = []
     if new_viol:
